@@ -1,4 +1,4 @@
 SPECIFICATION MCSpec
-CONSTANTS Tier = "thorough" Reps = 12
+CONSTANTS Tier = "thorough" Reps = 1
 INVARIANT RefVerifyOK RefSetKeyOK Emit
 CHECK_DEADLOCK FALSE
